@@ -94,7 +94,10 @@ def _alias(run: Run, prog: Program, model: Model) -> None:
                 probs.append("returns without visiting the target")
             for e in acc:
                 n += 1
-                if e.data["recv"].key() != "T":
+                rk = e.data["recv"].key()
+                while rk.startswith("attr(attr(") and rk.endswith(", props), type)"):
+                    rk = rk[len("attr(attr("):-len(", props), type)")]      # unwrapping an alias of an alias
+                if rk != "T":
                     probs.append(f"visits {e.data['recv'].key()[:40]} instead of props.type")
                 if vis in ("Validator", "SubstitutorValidator", "Substitutor"):
                     v = e.data["kwargs"].get("value")
